@@ -17,7 +17,7 @@ test data are recorded and validated with validate_recorded_models (also exporte
 import contextlib, itertools, json, math, os, sys, time
 from fractions import Fraction as F
 import common
-from common import cz, cq, clist
+from common import cz, cq, clist, cpair
 import lprec
 
 IMPORTS = ["Base", "Consts", "Lp", "Enum", "Brute", "Consts_here"]
@@ -359,14 +359,29 @@ def coq_lp(c):
                clin([(x, bkey(i)) for i, x in c["obj"]] + [(n["obj"], nkey(k)) for k, n in enumerate(c.get("ints", []))]), coef, es, cq(c["const"])))
 
 
-def coq_term(c, advice):
+def exact_point(c, vals):
+    """the solver's point at a yield as exact rationals: binaries and integer variables rounded, every error term at the value its
+    equality forces, every helper at the absolute value of its term -> [(key, Fraction)]"""
+    B = [F(round(vals[f"B_{i}"])) for i in range(c["nb"])]
+    N = [F(round(vals[f"N_{k}"])) for k in range(len(c.get("ints", [])))]
+    pt = [(bkey(i), B[i]) for i in range(c["nb"])] + [(nkey(k), N[k]) for k in range(len(N))]
+    for j, e in enumerate(c["eq"]):
+        v = (e["cov"] - sum(x * B[i] for i, x in e["co"]) - sum(x * N[k] for k, x in e.get("cn", []))) / e["ce"]
+        pt += [(ekey(j), v), ((-1,) + ekey(j), abs(v))]
+    return pt
+
+
+def coq_term(c, advice, points=()):
     adv = clist(advice, lambda s: clist(sorted(s), ckey))
     lim = common.copt(c["limit"], cz)
     if c.get("ints"):
-        # outside the class of the reference solver Brute (shaped m = false): the model gives the rows, kinds and binaries of the LP;
-        # the yields are judged by the property predicate against the exhaustive table, and the enumeration theorems (C05_enum_*)
-        # cover the loop for any solver meeting the contract
-        return (f"(let m := {coq_lp(c)} in OL [o_bool (shaped m); OL []; o_list o_key (binaries m); o_lp m])")
+        # outside the class of the reference solver Brute (shaped m = false): the model gives the rows, kinds and binaries of the LP and
+        # judges every yielded point (feasibleb, objective, active); the yields as a sequence are judged by the property predicate
+        # against the exhaustive table, and the enumeration theorems (C05_enum_*) cover the loop for any solver meeting the contract
+        pts = clist(points, lambda pt: clist(pt, lambda kq: cpair(ckey(kq[0]), cq(kq[1]))))
+        return (f"(let m := {coq_lp(c)} in OL [o_bool (shaped m); "
+                f"o_list (fun pt => OL [o_bool (feasibleb m (asg_of pt)); o_q (objective m (asg_of pt)); o_list o_key (active m (asg_of pt))]) {pts}; "
+                f"o_list o_key (binaries m); o_lp m])")
     return (f"(let m := {coq_lp(c)} in OL [o_bool (shaped m); run_enum_advised here {cq(c['gap'])} {lim} {adv} m; table m; o_lp m])")
 
 
@@ -845,7 +860,9 @@ def evaluate_enum(chk, cases, stream="enum", thorough=False, with_model=True):
         tables.append(exact_table(c))
     vals = None
     if with_model and chk.model_available():
-        terms = [coq_term(c, [[key_of_name(n) for n in y[1]] for y in im["yields"]]) for c, im in zip(cases, impls)]
+        terms = [coq_term(c, [[key_of_name(n) for n in y[1]] for y in im["yields"]],
+                          points=[exact_point(c, y[2]) for y in im["yields"][:6]] if c.get("ints") else ())
+                 for c, im in zip(cases, impls)]
         vals = common.coq_eval(IMPORTS, terms, shard=12, jobs=14)
     for k, (c, im, tb) in enumerate(zip(cases, impls, tables)):
         jc = to_json(c)
@@ -899,6 +916,12 @@ def evaluate_enum(chk, cases, stream="enum", thorough=False, with_model=True):
             mb = sorted(name_of_key(tuple(x)) for x in v[2])
             if v[0] != 0 or mb != sorted(f"B_{i}" for i in range(c["nb"])):
                 chk.mismatch("int-model-binaries", jc, [v[0], mb], None)
+            # every yield, as an exact point, judged by the MODEL's own semantics: Lp.feasibleb, Lp.objective, Lp.active
+            for yk, (y, pv) in enumerate(zip(im["yields"][:6], v[1])):
+                mo, ma = common.dq(pv[1]), sorted(name_of_key(tuple(x)) for x in pv[2])
+                if not pv[0] or not close(mo, y[0], extra=1e-6) or ma != sorted(y[1]):
+                    chk.mismatch("int-model-yield", dict(jc, yield_index=yk), {"feasibleb": bool(pv[0]), "objective": str(mo), "active": ma},
+                                 {"reported_objective": y[0], "names": sorted(y[1])})
             mvs, mrows, mobj, mconst = d_lp(v[3])
             ivs, irows, iobj, iconst = snap_canon(im["snap"])
             if (sorted(mvs.items()), merge_eq(mrows), mobj, mconst) != (sorted(ivs.items()), irows, iobj, iconst):
